@@ -827,6 +827,7 @@ func (a *Agent) setSelectedPair(pair *CandidatePair) {
 	}
 
 	pair.nominated = true
+	changed := a.getSelectedPair() != pair
 	a.selectedPair.Store(pair)
 	a.log.Tracef("Set selected candidate pair: %s", pair)
 
@@ -836,8 +837,11 @@ func (a *Agent) setSelectedPair(pair *CandidatePair) {
 	// Update connection state to Connected and notify state change handlers
 	a.updateConnectionState(ConnectionStateConnected)
 
-	// Notify when the selected candidate pair changes
-	a.selectedCandidatePairNotifier.EnqueueSelectedCandidatePair(pair)
+	// Notify when the selected candidate pair changes (selecting the selected pair again,
+	// e.g. on a renomination of it, is no change)
+	if changed {
+		a.selectedCandidatePairNotifier.EnqueueSelectedCandidatePair(pair)
+	}
 }
 
 func (a *Agent) pingAllCandidates() {
